@@ -20,14 +20,22 @@ META = dict(
          "2-3 commands per command family and simulates long mixed histories with clock steps; each history is executed "
          "through redis.Redis (plain and Ctx forms chosen pseudo-randomly) and through kv.New on 1, 2 and 3 miniredis "
          "shards with different weights; every reply is compared with the model and at the end the union of the shards' "
-         "keyspaces (type, value, TTL; every key on exactly one shard) must equal the model's keyspace. A second TLA+ "
+         "keyspaces (type, value, TTL; every key on exactly one shard) must equal the model's keyspace. The model also has "
+         "(i) a pipeline family: Pipelined/PipelinedCtx with 2-4 queued modelled commands incl. reads of absent keys and type "
+         "clashes - every command's own result/error as seen through its Cmder must be the model's (plain go-redis form: "
+         "redis.Nil only on the absent read) and the pipeline's error must be the first failed command's error (go-redis' "
+         "documented rule); (ii) a context dimension: every modelled method in its Ctx form with a context that is already "
+         "cancelled / past its deadline must return the context's error, put nothing on the wire and leave the keyspace "
+         "unchanged (what go-redis does for the same call). A second TLA+ "
          "table (RedisWire) gives the canonical RESP command for every wrapper method incl. geo, HyperLogLog, BitOp*, "
          "BitPos, Scan family, scripts; TLC enumerates argument tuples and the command that reaches miniredis "
-         "(pre-hook) is compared. The breaker clause (RedisBrk.tla) ranges over every entry point of the wrapper that goes through the breaker - "
+         "(pre-hook) is compared, and for every method the Ctx form with a dead context must send nothing and return the context's "
+         "error. The breaker clause (RedisBrk.tla) ranges over every entry point of the wrapper that goes through the breaker - "
          "the list is read from redis.go of the tree under test (every method calling a method of r.brk, directly or by "
          "delegation; an entry point without a driver call is exit 2) and includes Pipelined/PipelinedCtx, Eval, EvalSha: "
          "bursts of redis.Nil replies and of cancelled contexts through each entry point never make a later call be "
-         "rejected, an outage through it does; driven on the real per-address breaker with a forced coin and frozen clock.",
+         "rejected, an outage through it does, and what a call of a burst returns (redis.Nil / an error that is context.Canceled) "
+         "is itself a prediction (keys C12:ctx-form:ignores-context:<M>, C12:ctx-form:error:<M>, C12:pipeline:error-shape); driven on the real per-address breaker with a forced coin and frozen clock.",
     note="Trusted: TLC, miniredis 2.23.1 as the Redis environment (never the oracle: every expected value comes from "
          "the specification), go-redis' encoding of a command it is handed. Fully modelled (reply + effect): Get Set "
          "SetEx SetNX SetNXEx GetSet Incr IncrBy Decr DecrBy MGet Del Exists Expire ExpireAt Persist TTL Keys; HSet HSetNX "
